@@ -4,6 +4,8 @@ import (
 	"fmt"
 	"strconv"
 	"strings"
+	"sync"
+	"sync/atomic"
 	"time"
 
 	exserver "github.com/cybergarage/go-redis/examples/go-redisd/server"
@@ -20,6 +22,7 @@ type connCase struct {
 	steps   [][2]string // (conn index, op)
 	trace   bool
 	example bool // the bundled example store is the handler (no double)
+	par     bool // each connection's steps run in their own goroutine (free interleaving)
 }
 
 func parseCase(line string) connCase {
@@ -57,6 +60,8 @@ func parseCase(line string) connCase {
 			c.trace = v == "1"
 		case "handler":
 			c.example = v == "example"
+		case "par":
+			c.par = v == "1"
 		case "steps":
 			if v != "-" {
 				for _, s := range strings.Split(v, ";") {
@@ -112,7 +117,16 @@ func runConnCase(c connCase) string {
 	if err := srv.Start(); err != nil {
 		return "START-ERROR " + err.Error()
 	}
-	for i := range runs {
+	started := make([]bool, len(runs))
+	var startMu sync.Mutex
+	start := func(i int) { // a connection is "accepted" when the script first mentions it
+		startMu.Lock()
+		if started[i] {
+			startMu.Unlock()
+			return
+		}
+		started[i] = true
+		startMu.Unlock()
 		r := runs[i]
 		go func() {
 			res := "ret"
@@ -161,20 +175,16 @@ func runConnCase(c connCase) string {
 			return false
 		}
 	}
-	hang := false
-	for _, st := range c.steps {
-		if hang {
-			break
-		}
-		ci, _ := strconv.Atoi(st[0])
+	var hangFlag int32
+	doStep := func(ci int, op string) {
+		start(ci)
 		r := runs[ci]
-		op := st[1]
 		switch op[0] {
 		case 'f':
 			r.pc.feed(unhx(op[1:]))
 			if !waitQuiet(r) {
 				r.log.add("!HANG")
-				hang = true
+				atomic.StoreInt32(&hangFlag, 1)
 			} else {
 				r.log.add("Q") // quiescent: everything delivered so far has been processed
 			}
@@ -193,13 +203,45 @@ func runConnCase(c connCase) string {
 			r.pc.finish(op[0] == 'r')
 			if !waitDone(r) {
 				r.log.add("!HANG")
-				hang = true
+				atomic.StoreInt32(&hangFlag, 1)
 			}
 		}
 	}
+	if c.par {
+		// free interleaving: one goroutine per connection plays that connection's steps in order
+		per := make([][]string, len(runs))
+		for _, st := range c.steps {
+			ci, _ := strconv.Atoi(st[0])
+			per[ci] = append(per[ci], st[1])
+		}
+		var wg sync.WaitGroup
+		for ci := range per {
+			wg.Add(1)
+			go func(ci int) {
+				defer wg.Done()
+				for _, op := range per[ci] {
+					if atomic.LoadInt32(&hangFlag) != 0 {
+						return
+					}
+					doStep(ci, op)
+				}
+			}(ci)
+		}
+		wg.Wait()
+	} else {
+		for _, st := range c.steps {
+			if atomic.LoadInt32(&hangFlag) != 0 {
+				break
+			}
+			ci, _ := strconv.Atoi(st[0])
+			doStep(ci, st[1])
+		}
+	}
+	hang := atomic.LoadInt32(&hangFlag) != 0
 	var sb strings.Builder
 	for i, r := range runs {
 		if !hang && r.res == "" {
+			start(i)
 			r.pc.finish(false)
 			if !waitDone(r) {
 				r.log.add("!HANG")
